@@ -213,6 +213,7 @@ class Interp:
         self.merge_depth = 0         # > 0 inside a branch of a merged if
         self.recording = None        # list of (XList, value) appends recorded during the per-element evaluation of an effect loop
         self.body_lists = set()      # ids of the Python lists created inside the body being evaluated per element
+        self.read_lists = []         # symbolic lists read (membership, length, iteration) during such an evaluation
         SObj._next[0] = 0
 
     def fresh(self, base, sort='int'):
@@ -409,6 +410,8 @@ class Interp:
         if isinstance(v, SSeq):
             return self.pipes.observable(v, 'ne')
         if isinstance(v, XList):
+            if self.recording is not None:
+                self.read_lists.append(v)
             if any(not isinstance(x, Spread) for x in v.items):
                 return True
             acc = False
@@ -717,7 +720,7 @@ class Interp:
         if self.cut_text is None or self.depth != 1:
             return False
         head = ast.unparse(st).split('\n')[0].rstrip(':').strip()
-        return head == self.cut_text
+        return head.startswith(self.cut_text)
 
     def havoc_loop(self, st, env):
         """sound over-approximation of a loop: every local it assigns or mutates becomes unknown"""
@@ -758,6 +761,8 @@ class Interp:
         if isinstance(it, SStr) and not it.is_concrete():
             return self.for_over_runs(st, it, env)
         from .seq import SSeq
+        if self.recording is not None and isinstance(it, XList):
+            self.read_lists.append(it)
         if isinstance(it, XList) and it.has_spread():
             if st.orelse:
                 raise Unsupported('for/else over a symbolic list')
@@ -1398,6 +1403,8 @@ class Interp:
 
     def contains(self, container, x):
         from .values import SPredSet
+        if self.recording is not None and isinstance(container, XList):
+            self.read_lists.append(container)
         if isinstance(container, SPredSet):
             return container.fn(x)
         if isinstance(container, GList):
@@ -1621,6 +1628,8 @@ class Interp:
         raise Unsupported('symbolic slice')
 
     def get_item(self, obj, key):
+        if self.recording is not None and isinstance(obj, XList):
+            self.read_lists.append(obj)
         if isinstance(obj, dict):
             return self.dict_get(obj, key, None, True)
         if isinstance(obj, (list, tuple)):
@@ -2080,8 +2089,8 @@ class Interp:
 
     def find_loop(self, f, text):
         for n in ast.walk(f.node):
-            if isinstance(n, (ast.For, ast.While)) and ast.unparse(n).split('\n')[0].rstrip(':').strip() == text:
-                return n
+            if isinstance(n, (ast.For, ast.While)) and ast.unparse(n).split('\n')[0].rstrip(':').strip().startswith(text):
+                return n        # (the contract names the loop by the beginning of its header: kind, loop variables)
         raise Unsupported(f'loop {text!r} not found in {f.qualname}')
 
     def run_step(self, f, text, values):
